@@ -58,7 +58,12 @@ func replayEnv(t *testing.T, e *hx.Envelope) {
 	if err := json.Unmarshal(e.Case, &c); err != nil {
 		t.Fatalf("bad case: %v", err)
 	}
-	if err := try(e.Test, &c); err != nil {
+	err := try(e.Test, &c)
+	// a concurrent case exposes a defect only in some schedules: repeat it
+	for i := 0; err == nil && c.Conc != nil && i < 24; i++ {
+		err = RunCase(&c)
+	}
+	if err != nil {
 		if isHarness(err) {
 			hx.Inconclusive(err.Error())
 			t.Fatalf("%v", err)
@@ -321,6 +326,7 @@ func (g *gen) growThenRead(t *rapid.T) bool {
 
 func (g *gen) op(t *rapid.T) Op {
 	if len(g.queue) > 0 {
+		_ = rapid.Bool().Draw(t, "queued") // a Custom generator has to consume something
 		o := g.queue[0]
 		g.queue = g.queue[1:]
 		return o
@@ -683,9 +689,9 @@ func TestEnumBoundary(t *testing.T) {
 						Files: []FileSpec{{Len: int(l), Seed: uint64(l*131+add) + 5}},
 						Desc:  fmt.Sprintf("enum grow msize=%d dotu=%v len=%d add=%d", nm, dotu, l, add)}
 					c.Ops = append(c.Ops,
-						Op{Kind: "open", File: 0, Mode: oREAD},  // h0, opened at length l
-						Op{Kind: "open", File: 0, Mode: oREAD},  // h1, sequential reader opened at length l
-						Op{Kind: "open", File: 0, Mode: oRDWR},  // h2, the writer
+						Op{Kind: "open", File: 0, Mode: oREAD},                         // h0, opened at length l
+						Op{Kind: "open", File: 0, Mode: oREAD},                         // h1, sequential reader opened at length l
+						Op{Kind: "open", File: 0, Mode: oRDWR},                         // h2, the writer
 						Op{Kind: "cread", Handle: 0, Off: uint64(l), Count: uint32(u)}, // EOF for now
 						Op{Kind: "written", Handle: 2, Off: uint64(l), Count: uint32(add), Seed: uint64(add) * 7})
 					nl := l + add
